@@ -84,6 +84,8 @@ static const LL table[] = {
 	{"string_get", MSG_STRING_GET, [](NA n, const Bytes &a) { bidib_send_string_get(n, a[0], a[1], 0); }, GN(2), enc_id, false},
 	{"bm_get_range", MSG_BM_GET_RANGE, [](NA n, const Bytes &a) { bidib_send_bm_get_range(n, a[0], a[1], 0); },
 	 [](Rng &r, Bytes &a) { a = {(uint8_t) (r.below(32) * 8), (uint8_t) (r.below(32) * 8)}; }, enc_id, false},
+	{"bm_get_range_with_action_id", MSG_BM_GET_RANGE, [](NA n, const Bytes &a) { bidib_send_bm_get_range(n, a[0], a[1], 41); },
+	 [](Rng &r, Bytes &a) { a = {(uint8_t) (r.below(32) * 8), (uint8_t) (r.below(32) * 8)}; }, enc_id, false},
 	{"bm_mirror_multiple", MSG_BM_MIRROR_MULTIPLE,
 	 [](NA n, const Bytes &a) { bidib_send_bm_mirror_multiple(n, a[0], a[1], a.data() + 2, 0); },
 	 [](Rng &r, Bytes &a) { size_t sz = (size_t) r.range(1, 16) * 8; a.clear(); a.push_back((uint8_t) (r.below(32) * 8)); a.push_back((uint8_t) sz); for (size_t i = 0; i < sz / 8; i++) a.push_back(edge_byte(r)); },
